@@ -22,6 +22,7 @@ import (
 	memdb "git.defalsify.org/vise.git/db/mem"
 	"git.defalsify.org/vise.git/db/postgres"
 	"git.defalsify.org/vise.git/lang"
+	"git.defalsify.org/vise.git/resource"
 	"pgregory.net/rapid"
 
 	"verifharness/pgfake"
@@ -207,8 +208,37 @@ func genC10Scratch(t *rapid.T) C10Case {
 	return C10Case{Ops: ops}
 }
 
+// genC10Resource: static load entries read through resource.DbResource, which looks a symbol
+// up under its own name and only then under <name>.txt; both exist, in the default language
+// and in translations.
+func genC10Resource(t *rapid.T) C10Case {
+	ops := []C10Op{{Kind: "prefix", Typ: db.DATATYPE_STATICLOAD}, {Kind: "lock", Typ: safeLock, Locked: false}}
+	keys := []string{"foo", "bar", "baz"}
+	n := 3 + uniformN(t, 8, "nputs")
+	for i := 0; i < n; i++ {
+		k := keys[uniformN(t, 3, "key")]
+		if chancePct(t, 50, "txt") {
+			k += ".txt"
+		}
+		if chancePct(t, 30, "lang") {
+			ops = append(ops, C10Op{Kind: "lang", Lang: []string{"", "nor", "eng"}[uniformN(t, 3, "langv")]})
+		}
+		ops = append(ops, C10Op{Kind: "put", Key: BS(k), Val: BS(fmt.Sprintf("%s#%d", k, i))})
+	}
+	ops = append(ops, C10Op{Kind: "lang", Lang: ""}, C10Op{Kind: "lock", Typ: safeLock, Locked: true})
+	for i := 0; i < 4; i++ {
+		if chancePct(t, 40, "ctxlang") {
+			ops = append(ops, C10Op{Kind: "ctxlang", Lang: []string{"", "nor", "eng"}[uniformN(t, 3, "ctxlangv")]})
+		}
+		ops = append(ops, C10Op{Kind: "rget", Key: BS(keys[uniformN(t, 3, "rkey")])})
+	}
+	return C10Case{Ops: ops}
+}
+
 func genC10(t *rapid.T) C10Case {
 	switch k := uniformN(t, 20, "focus"); {
+	case k == 19:
+		return genC10Resource(t)
 	case k < 7:
 		return genC10Dump(t)
 	case k < 11:
@@ -229,6 +259,8 @@ func genC10(t *rapid.T) C10Case {
 }
 
 func keyWellFormed(k string) bool {
+	// (static load entries may carry the conventional .txt suffix)
+	k = strings.TrimSuffix(k, ".txt")
 	if k == "" {
 		return false
 	}
@@ -358,6 +390,26 @@ func ctxWithLang(code string) context.Context {
 }
 
 type kv struct{ k, v string }
+
+// dumpAllBetween: like dumpAll, with between() called after every entry read.
+func dumpAllBetween(ctx context.Context, d db.Db, prefix []byte, between func()) ([]kv, error) {
+	dmp, err := d.Dump(ctx, prefix)
+	if err != nil {
+		return nil, err
+	}
+	var out []kv
+	for i := 0; i < 10000; i++ {
+		k, v := dmp.Next(ctx)
+		if k == nil {
+			break
+		}
+		out = append(out, kv{string(k), string(v)})
+		between()
+	}
+	dmp.Close()
+	sort.Slice(out, func(i, j int) bool { return out[i].k < out[j].k || (out[i].k == out[j].k && out[i].v < out[j].v) })
+	return out, nil
+}
 
 func dumpAll(ctx context.Context, d db.Db, prefix []byte) ([]kv, error) {
 	dmp, err := d.Dump(ctx, prefix)
@@ -555,6 +607,47 @@ func checkC10(c C10Case) (o Outcome) {
 					}
 				}
 			}
+		case "rget":
+			// a static load symbol read through resource.DbResource (which needs a handle
+			// with the resource types locked, and selects the data type itself)
+			key := string(op.Key)
+			if ref.lock&safeLock != safeLock || !keyWellFormed(key) {
+				continue
+			}
+			ctx := ctxWithLang(ref.ctxLang)
+			ref.pfx = db.DATATYPE_STATICLOAD
+			lookup := func(k string) ([]byte, bool) {
+				if l := ref.effLang(); l != "" {
+					if v, ok := ref.m[ref.rk(k, l)]; ok {
+						return v, true
+					}
+				}
+				v, ok := ref.m[ref.rk(k, "")]
+				return v, ok
+			}
+			want, found := lookup(key)
+			if !found {
+				want, found = lookup(key + ".txt")
+			}
+			for _, b := range bks {
+				rs := resource.NewDbResource(b.d).With(db.DATATYPE_STATICLOAD)
+				var got string
+				fn, err := rs.FuncFor(ctx, key)
+				if err == nil {
+					var res resource.Result
+					res, err = fn(ctx, key, nil)
+					got = res.Content
+				}
+				switch {
+				case found && err != nil:
+					return at(b, "resource-get-lost", "DbResource finds no static load %q (%v), the store holds %q for it", key, err, want)
+				case found && got != string(want):
+					return at(b, "resource-get-wrong", "DbResource reads static load %q as %q, the entry of that name (or, without one, of %s.txt) holds %q", key, got, key, want)
+				case !found && err == nil:
+					return at(b, "resource-get-ghost", "DbResource reads static load %q as %q, no such entry was written", key, got)
+				}
+			}
+			o.class("read-through-DbResource")
 		case "dump":
 			prefix := string(op.Key)
 			ctx := ctxWithLang(ref.ctxLang)
